@@ -1,4 +1,10 @@
-"""fresh-interpreter side of C20: load a saved ranking object and report its behaviour"""
+"""fresh-interpreter sides of C20.
+
+consume <pkl> <queries.json> <asc|desc> : load a saved ranking object and report its behaviour
+produce <case.json> <out.pkl>           : build the object of a C20 case in THIS fresh process, use
+                                          it (rank the 'pre' worlds, ask the queries), save it, and
+                                          report impacts and completed ranks
+"""
 import json
 import os
 import sys
@@ -9,23 +15,49 @@ os.environ.setdefault("INFOCF_LOGLEVEL", "ERROR")
 from vlib import bridge, fm  # noqa: E402
 
 
-def main():
-    path, qpath, order = sys.argv[1], sys.argv[2], sys.argv[3]
-    bridge.lib()
+def world_str(w, n):
+    return "".join("1" if (w >> i) & 1 else "0" for i in range(n))
+
+
+def build_object(case):
+    from inference.preocf import PreOCF
+    atoms = case["atoms"]
+    n = len(atoms)
+    kind = case["kind"]
+    meta = json.loads(json.dumps(case.get("meta", {})))
+    if kind == "custom":
+        return PreOCF.init_custom({world_str(w, n): case["ranks"][w] for w in range(1 << n) if case["ranks"][w] is not None},
+                                  signature=list(atoms), metadata=meta)
+    base = [(k, fm.from_json(B), fm.from_json(A)) for k, B, A in case["base"]]
+    bb = bridge.mk_bb(atoms, base)
+    if kind == "z":
+        return PreOCF.init_system_z(bb, metadata=meta, extended=case.get("extended", False))
+    return PreOCF.init_random_min_c_rep(bb, metadata=meta)
+
+
+def consume(path, qpath, order):
     from inference.preocf import PreOCF
     ocf = PreOCF.load_ocf(path, trusted=True)
     qs = json.load(open(qpath))
+    if order == "desc":
+        qs_order = list(reversed(range(len(qs))))
+    else:
+        qs_order = list(range(len(qs)))
     stored = dict(ocf.ranks)
     worlds = sorted(ocf.ranks.keys(), reverse=(order == "desc"))
     ranks = {}
     err = None
+    verdicts = [None] * len(qs)
     try:
+        # the queries are built (and asked) in this process's own order, before anything else
+        for i in qs_order:
+            B, A = qs[i]
+            verdicts[i] = bool(ocf.conditional_acceptance(bridge.mk_cond(fm.from_json(B), fm.from_json(A))))
         for w in worlds:
             if ocf.ranking_system == "custom" and ocf.ranks[w] is None:
                 ranks[w] = None     # a custom object has no way to compute a missing rank
                 continue
             ranks[w] = ocf.rank_world(w)
-        verdicts = [bool(ocf.conditional_acceptance(bridge.mk_cond(fm.from_json(B), fm.from_json(A)))) for B, A in qs]
     except BaseException as e:  # noqa: BLE001
         err = f"{type(e).__name__}: {e}"[:300]
         verdicts = None
@@ -35,4 +67,36 @@ def main():
                                   "ranking_system": ocf.ranking_system}))
 
 
-main()
+def produce(casepath, out):
+    case = json.load(open(casepath))
+    n = len(case["atoms"])
+    ocf = build_object(case)
+    for w in case.get("pre", []):
+        ws = world_str(w % (1 << n), n)
+        if ws in ocf.ranks and not (case["kind"] == "custom" and ocf.ranks[ws] is None):
+            ocf.rank_world(ws)
+    asked = []
+    for B, A in case["queries"]:
+        try:
+            asked.append(bool(ocf.conditional_acceptance(bridge.mk_cond(fm.from_json(B), fm.from_json(A)))))
+        except BaseException:  # noqa: BLE001
+            asked.append(None)
+    ocf.save_ocf(out)
+    snapshot = dict(ocf.ranks)
+    full = {}
+    for w in sorted(ocf.ranks):
+        if case["kind"] == "custom" and ocf.ranks[w] is None:
+            continue
+        full[w] = ocf.rank_world(w)
+    print("RESULT " + json.dumps({"impacts": getattr(ocf, "_impacts", None), "full": full, "stored": snapshot,
+                                  "asked": asked}))
+
+
+if __name__ == "__main__":
+    bridge.lib()
+    if sys.argv[1] == "produce":
+        produce(sys.argv[2], sys.argv[3])
+    elif sys.argv[1] == "consume":
+        consume(sys.argv[2], sys.argv[3], sys.argv[4])
+    else:   # backwards compatible: <pkl> <queries.json> <order>
+        consume(sys.argv[1], sys.argv[2], sys.argv[3])
